@@ -19,6 +19,7 @@
 EXTENDS Naturals, Sequences, FiniteSets, TLC, RqRead
 
 CONSTANTS Node, MaxTerm, MaxLog, NonCmdKinds,
+          MaxRestarts,   \* node restarts explored (volatile state lost: role, commit index, FSM position, strongReadTerm)
           WarmStart,     \* start from the (reachable) state "stable leader in term 1 that has served a strong read"
           StrongThroughLog, SignalConfig, SignalBarrier    \* + UpgradeStrong, VerifyQuorum, RecheckTerm of RqRead
 
@@ -30,9 +31,10 @@ VARIABLES role,        \* [Node -> {"F","L"}]
           sig,         \* [Node -> Nat]  fsmTarget: highest index signalled as applied
           srt,         \* [Node -> Nat]  strongReadTerm
           ackedIdx,    \* highest index of a write acknowledged to a client
-          rd           \* the in-flight read (one at a time)
+          rd,          \* the in-flight read (one at a time)
+          nrestart
 
-vars == <<role, term, log, commitIdx, lastApplied, sig, srt, ackedIdx, rd>>
+vars == <<role, term, log, commitIdx, lastApplied, sig, srt, ackedIdx, rd, nrestart>>
 
 Quorums == {Q \in SUBSET Node : Cardinality(Q) * 2 > Cardinality(Node)}
 LastTerm(l) == IF Len(l) = 0 THEN 0 ELSE l[Len(l)].term
@@ -48,13 +50,13 @@ NoRead == [pc |-> "idle", node |-> CHOOSE n \in Node : TRUE, rterm |-> 0, ridx |
 ColdInit == /\ role = [n \in Node |-> "F"] /\ term = [n \in Node |-> 0]
             /\ log = [n \in Node |-> <<>>] /\ commitIdx = [n \in Node |-> 0]
             /\ lastApplied = [n \in Node |-> 0] /\ sig = [n \in Node |-> 0]
-            /\ srt = [n \in Node |-> 0] /\ ackedIdx = 0 /\ rd = NoRead
+            /\ srt = [n \in Node |-> 0] /\ ackedIdx = 0 /\ rd = NoRead /\ nrestart = 0
 (* reachable from ColdInit: ld elected in term 1, no-op and one strong read replicated, committed and applied *)
 WarmInit == \E ld \in Node :
             /\ role = [n \in Node |-> IF n = ld THEN "L" ELSE "F"] /\ term = [n \in Node |-> 1]
             /\ log = [n \in Node |-> <<[term |-> 1, kind |-> "N"], [term |-> 1, kind |-> "Q"]>>]
             /\ commitIdx = [n \in Node |-> 2] /\ lastApplied = [n \in Node |-> 2] /\ sig = [n \in Node |-> 2]
-            /\ srt = [n \in Node |-> IF n = ld THEN 1 ELSE 0] /\ ackedIdx = 0 /\ rd = NoRead
+            /\ srt = [n \in Node |-> IF n = ld THEN 1 ELSE 0] /\ ackedIdx = 0 /\ rd = NoRead /\ nrestart = 0
 Init == IF WarmStart THEN WarmInit ELSE ColdInit
 
 (* ------------------------------ abstract Raft ------------------------------ *)
@@ -69,15 +71,15 @@ BecomeLeader(n, Q) ==
      /\ term' = [m \in Node |-> IF m \in Q THEN t ELSE term[m]]
      /\ role' = [m \in Node |-> IF m = n THEN "L" ELSE IF m \in Q THEN "F" ELSE role[m]]
      /\ log' = [log EXCEPT ![n] = Append(@, [term |-> t, kind |-> "N"])]
-  /\ UNCHANGED <<commitIdx, lastApplied, sig, srt, ackedIdx, rd>>
+  /\ UNCHANGED <<commitIdx, lastApplied, sig, srt, ackedIdx, rd, nrestart>>
 
 StepDown(n) == /\ role[n] = "L" /\ role' = [role EXCEPT ![n] = "F"]   \* lease lost, same term
-               /\ UNCHANGED <<term, log, commitIdx, lastApplied, sig, srt, ackedIdx, rd>>
+               /\ UNCHANGED <<term, log, commitIdx, lastApplied, sig, srt, ackedIdx, rd, nrestart>>
 
 UpdateTerm(i, j) == /\ term[j] > term[i]
                     /\ term' = [term EXCEPT ![i] = term[j]]
                     /\ role' = [role EXCEPT ![i] = "F"]
-                    /\ UNCHANGED <<log, commitIdx, lastApplied, sig, srt, ackedIdx, rd>>
+                    /\ UNCHANGED <<log, commitIdx, lastApplied, sig, srt, ackedIdx, rd, nrestart>>
 
 GetEntry(i, j) ==
   /\ role[j] = "L" /\ i # j /\ term[i] = term[j]
@@ -85,7 +87,7 @@ GetEntry(i, j) ==
   /\ LET k == Len(log[i]) IN
        /\ (IF k = 0 THEN TRUE ELSE log[i][k] = log[j][k])
        /\ log' = [log EXCEPT ![i] = Append(@, log[j][k+1])]
-  /\ UNCHANGED <<role, term, commitIdx, lastApplied, sig, srt, ackedIdx, rd>>
+  /\ UNCHANGED <<role, term, commitIdx, lastApplied, sig, srt, ackedIdx, rd, nrestart>>
 
 Truncate(i, j) ==
   /\ role[j] = "L" /\ i # j /\ term[i] = term[j]
@@ -93,7 +95,7 @@ Truncate(i, j) ==
   /\ LET k == Len(log[i]) IN (IF k > Len(log[j]) THEN TRUE ELSE log[i][k] # log[j][k])
   /\ Len(log[i]) > commitIdx[i]
   /\ log' = [log EXCEPT ![i] = SubSeq(@, 1, Len(@) - 1)]
-  /\ UNCHANGED <<role, term, commitIdx, lastApplied, sig, srt, ackedIdx, rd>>
+  /\ UNCHANGED <<role, term, commitIdx, lastApplied, sig, srt, ackedIdx, rd, nrestart>>
 
 Agree(n, k) == {m \in Node : Len(log[m]) >= k /\ log[m][k] = log[n][k] /\ term[m] = term[n]}
 AdvanceCommit(n) ==
@@ -102,14 +104,14 @@ AdvanceCommit(n) ==
        /\ log[n][k].term = term[n]
        /\ Agree(n, k) \in Quorums
        /\ commitIdx' = [commitIdx EXCEPT ![n] = k]
-  /\ UNCHANGED <<role, term, log, lastApplied, sig, srt, ackedIdx, rd>>
+  /\ UNCHANGED <<role, term, log, lastApplied, sig, srt, ackedIdx, rd, nrestart>>
 
 LearnCommit(i, j) ==
   /\ role[j] = "L" /\ term[i] = term[j] /\ commitIdx[j] > commitIdx[i]
   /\ LET k == Min(commitIdx[j], Len(log[i])) IN
        /\ k > commitIdx[i] /\ log[i][k] = log[j][k]
        /\ commitIdx' = [commitIdx EXCEPT ![i] = k]
-  /\ UNCHANGED <<role, term, log, lastApplied, sig, srt, ackedIdx, rd>>
+  /\ UNCHANGED <<role, term, log, lastApplied, sig, srt, ackedIdx, rd, nrestart>>
 
 (* Raft hands entry lastApplied+1 to the FSM goroutine; only signalled kinds move fsmTarget *)
 ApplyOne(n) ==
@@ -117,18 +119,28 @@ ApplyOne(n) ==
   /\ LET k == lastApplied[n] + 1 IN
        /\ lastApplied' = [lastApplied EXCEPT ![n] = k]
        /\ sig' = [sig EXCEPT ![n] = IF Signalled(log[n][k]) THEN k ELSE @]
-  /\ UNCHANGED <<role, term, log, commitIdx, srt, ackedIdx, rd>>
+  /\ UNCHANGED <<role, term, log, commitIdx, srt, ackedIdx, rd, nrestart>>
+
+(* process restart: the log is durable; role, commit index, FSM position, fsmTarget and strongReadTerm are not *)
+(* (Store.Open resets them: fsm.reset); an in-flight read on that node is gone                              *)
+Restart(n) ==
+  /\ nrestart < MaxRestarts
+  /\ role' = [role EXCEPT ![n] = "F"] /\ commitIdx' = [commitIdx EXCEPT ![n] = 0]
+  /\ lastApplied' = [lastApplied EXCEPT ![n] = 0] /\ sig' = [sig EXCEPT ![n] = 0] /\ srt' = [srt EXCEPT ![n] = 0]
+  /\ rd' = IF rd.pc # "idle" /\ rd.node = n THEN NoRead ELSE rd
+  /\ nrestart' = nrestart + 1
+  /\ UNCHANGED <<term, log, ackedIdx>>
 
 (* ------------------------------ rqlite layer ------------------------------ *)
 ClientWrite(n) ==
   /\ role[n] = "L" /\ Len(log[n]) < MaxLog
   /\ log' = [log EXCEPT ![n] = Append(@, [term |-> term[n], kind |-> "W"])]
-  /\ UNCHANGED <<role, term, commitIdx, lastApplied, sig, srt, ackedIdx, rd>>
+  /\ UNCHANGED <<role, term, commitIdx, lastApplied, sig, srt, ackedIdx, rd, nrestart>>
 
 NonCmdEntry(n, kd) ==   \* join / remove (C) or Store.Barrier (B)
   /\ role[n] = "L" /\ Len(log[n]) < MaxLog
   /\ log' = [log EXCEPT ![n] = Append(@, [term |-> term[n], kind |-> kd])]
-  /\ UNCHANGED <<role, term, commitIdx, lastApplied, sig, srt, ackedIdx, rd>>
+  /\ UNCHANGED <<role, term, commitIdx, lastApplied, sig, srt, ackedIdx, rd, nrestart>>
 
 (* a write is acknowledged by the leader that appended it, once its FSM applied it *)
 AckWrite(n) ==
@@ -136,14 +148,14 @@ AckWrite(n) ==
   /\ \E k \in 1..lastApplied[n] :
        /\ log[n][k].kind = "W" /\ log[n][k].term = term[n] /\ k > ackedIdx
        /\ ackedIdx' = k
-  /\ UNCHANGED <<role, term, log, commitIdx, lastApplied, sig, srt, rd>>
+  /\ UNCHANGED <<role, term, log, commitIdx, lastApplied, sig, srt, rd, nrestart>>
 
 (* ---- Query(level): readTerm := CurrentTerm(), then the level's path ---- *)
 RdInvoke(n, lvl) ==
   /\ rd.pc = "idle"
   /\ rd' = [NoRead EXCEPT !.pc = IF lvl = "lin" THEN "chk" ELSE "strong", !.node = n, !.rterm = term[n],
                           !.minIdx = ackedIdx, !.lvl = lvl]
-  /\ UNCHANGED <<role, term, log, commitIdx, lastApplied, sig, srt, ackedIdx>>
+  /\ UNCHANGED <<role, term, log, commitIdx, lastApplied, sig, srt, ackedIdx, nrestart>>
 
 (* waitForLinearizableRead: srt check, leader check, readIndex := CommitIndex() *)
 RdCheck ==
@@ -153,7 +165,7 @@ RdCheck ==
        rd' = IF d = "upgrade" THEN [rd EXCEPT !.pc = "strong"]
              ELSE IF d = "abort" THEN NoRead
              ELSE [rd EXCEPT !.pc = "verify", !.ridx = commitIdx[n]]
-  /\ UNCHANGED <<role, term, log, commitIdx, lastApplied, sig, srt, ackedIdx>>
+  /\ UNCHANGED <<role, term, log, commitIdx, lastApplied, sig, srt, ackedIdx, nrestart>>
 
 (* strong read: State()==Leader, raft.Apply(Q) *)
 RdStrongSubmit ==
@@ -164,7 +176,7 @@ RdStrongSubmit ==
             THEN /\ log' = [log EXCEPT ![n] = Append(@, [term |-> term[n], kind |-> "Q"])]
                  /\ rd' = [rd EXCEPT !.pc = "swait", !.ridx = Len(log[n]) + 1]
             ELSE /\ rd' = [rd EXCEPT !.pc = "done", !.served = lastApplied[n]] /\ UNCHANGED log
-  /\ UNCHANGED <<role, term, commitIdx, lastApplied, sig, srt, ackedIdx>>
+  /\ UNCHANGED <<role, term, commitIdx, lastApplied, sig, srt, ackedIdx, nrestart>>
 
 RdStrongDone ==
   /\ rd.pc = "swait"
@@ -174,7 +186,7 @@ RdStrongDone ==
           /\ srt' = [srt EXCEPT ![n] = rd.rterm]          \* strongReadTerm.Store(readTerm)
           /\ rd' = [rd EXCEPT !.pc = "done", !.served = rd.ridx]
        \/ /\ role[n] # "L" /\ rd' = NoRead /\ UNCHANGED srt  \* ErrNotLeader / leadership lost
-  /\ UNCHANGED <<role, term, log, commitIdx, lastApplied, sig, ackedIdx>>
+  /\ UNCHANGED <<role, term, log, commitIdx, lastApplied, sig, ackedIdx, nrestart>>
 
 (* VerifyLeader(): a quorum still follows n *)
 RdVerify(Q) ==
@@ -184,25 +196,25 @@ RdVerify(Q) ==
        ELSE \/ /\ n \in Q /\ role[n] = "L" /\ \A q \in Q : term[q] <= term[n]
                /\ rd' = [rd EXCEPT !.pc = "term"]
             \/ /\ role[n] # "L" /\ rd' = NoRead
-  /\ UNCHANGED <<role, term, log, commitIdx, lastApplied, sig, srt, ackedIdx>>
+  /\ UNCHANGED <<role, term, log, commitIdx, lastApplied, sig, srt, ackedIdx, nrestart>>
 
 RdTerm ==
   /\ rd.pc = "term"
   /\ rd' = IF LrTermOK(rd.rterm, term[rd.node]) THEN [rd EXCEPT !.pc = "wait"] ELSE NoRead
-  /\ UNCHANGED <<role, term, log, commitIdx, lastApplied, sig, srt, ackedIdx>>
+  /\ UNCHANGED <<role, term, log, commitIdx, lastApplied, sig, srt, ackedIdx, nrestart>>
 
 (* fsmTarget.Subscribe(readIndex) fires; the read is then served from the local database *)
 RdServe ==
   /\ rd.pc = "wait"
   /\ LrMayServe(sig[rd.node], rd.ridx)
   /\ rd' = [rd EXCEPT !.pc = "done", !.served = lastApplied[rd.node]]
-  /\ UNCHANGED <<role, term, log, commitIdx, lastApplied, sig, srt, ackedIdx>>
+  /\ UNCHANGED <<role, term, log, commitIdx, lastApplied, sig, srt, ackedIdx, nrestart>>
 
 RdFinish == /\ rd.pc = "done" /\ rd' = NoRead
-            /\ UNCHANGED <<role, term, log, commitIdx, lastApplied, sig, srt, ackedIdx>>
+            /\ UNCHANGED <<role, term, log, commitIdx, lastApplied, sig, srt, ackedIdx, nrestart>>
 
 Next == \/ \E n \in Node, Q \in Quorums : BecomeLeader(n, Q)
-        \/ \E n \in Node : StepDown(n) \/ AdvanceCommit(n) \/ ApplyOne(n) \/ ClientWrite(n) \/ AckWrite(n)
+        \/ \E n \in Node : Restart(n) \/ StepDown(n) \/ AdvanceCommit(n) \/ ApplyOne(n) \/ ClientWrite(n) \/ AckWrite(n)
         \/ \E n \in Node, kd \in NonCmdKinds : NonCmdEntry(n, kd)
         \/ \E n \in Node, lv \in {"lin", "strong"} : RdInvoke(n, lv)
         \/ \E i, j \in Node : UpdateTerm(i, j) \/ GetEntry(i, j) \/ Truncate(i, j) \/ LearnCommit(i, j)
